@@ -97,7 +97,7 @@ class SstructRoundTrip(Contract):
         from fontTools.misc import sstruct
         import struct as _s
 
-        fs, names, fixes = sstruct.getformat(a.fmt, keep_pad_byte=True)
+        fs, names, fixes = sstruct.getformat(a.fmt)
         got = list(SymBytes.of(r).items)
         want = list(SymBytes.of(a.data).items)
         if len(got) != len(want):
@@ -114,3 +114,49 @@ class SstructRoundTrip(Contract):
         return And(*[eq(g, 0) if i in pads else eq(g, w) for i, (g, w) in enumerate(zip(got, want))])
 
     ensures = [prop("pack-of-unpack-is-identity", lambda a, old, r: SstructRoundTrip._post(a, r))]
+
+
+NAMED_PAD_FORMATS = {
+    "pad-in-the-middle": "\n > \n a: B\n ignored: x\n b: H\n",
+    "two-pads-and-fixed": "\n > \n ver: 16.16F\n ignored: x\n ignored2: x\n n: H\n",
+    "pad-last": "\n < \n a: h\n tail: x\n",
+}
+
+
+@contract
+class SstructNamedPad(Contract):
+    """Formats with NAMED pad bytes ('name: x', as in tfmLib), in both call orders on a fresh
+    format cache: pack first then unpack, and unpack first then pack - the result must not
+    depend on which was called first (the cache is shared), pads are written as zero and
+    carry no field."""
+    module = "fontTools.misc.sstruct"
+    qualname = "pack"
+    props = ("C15",)
+    rebind = staticmethod(_rebind)
+    variants = tuple((k, order) for k in NAMED_PAD_FORMATS for order in ("pack-first", "unpack-first"))
+    level = "PF"
+
+    def args(self, S, variant):
+        from fontTools.misc import sstruct
+        fmt = NAMED_PAD_FORMATS[variant[0]]
+        return dict(fmt=fmt, data=S.bytes("d", {"pad-in-the-middle": 4, "two-pads-and-fixed": 8, "pad-last": 3}[variant[0]]), _order=variant[1])
+
+    def call(self, f, a):
+        self.mod._formatcache.clear()
+        if a._order == "unpack-first":
+            obj = self.mod.unpack(a.fmt, a.data)
+            return f(a.fmt, obj), obj
+        # pack something first (field values taken from the bytes by an independent reading)
+        its = list(a.data.items) if hasattr(a.data, "items") else list(a.data)
+        name = [k for k, v in NAMED_PAD_FORMATS.items() if v == a.fmt][0]
+        first = {"pad-in-the-middle": lambda: {"a": its[0], "b": its[2] * 256 + its[3]},
+                 "two-pads-and-fixed": lambda: {"ver": 1.5, "n": its[6] * 256 + its[7]},
+                 "pad-last": lambda: {"a": 5}}[name]()
+        f(a.fmt, first)
+        obj = self.mod.unpack(a.fmt, a.data)
+        return f(a.fmt, obj), obj
+
+    ensures = [
+        prop("pack-of-unpack-is-identity-with-zero-pads", lambda a, old, r: SstructRoundTrip._post(a, r[0])),
+        prop("pads-are-not-fields", lambda a, old, r: not any(k.startswith(("ignored", "tail")) for k in r[1])),
+    ]
